@@ -682,6 +682,11 @@ class Class(Node):
                                 # Store the reference that was found (not the last
                                 # one tried) for the next lookup
                                 self.imports[component_ref.name] = found_comp_ref
+                                if component_ref.child:
+                                    # The import resolves the first name only; the
+                                    # rest is looked up inside the class found, as
+                                    # on every later (memoised) lookup
+                                    c = c._find_class(component_ref.child[0], False)
                                 return c
                             else:
                                 raise ClassNotFoundError
